@@ -1,9 +1,25 @@
 (* C11 -- placeholder substitution is lossless and one-to-one.
-   Model: XV.Placeholder (tied to xmldiff/formatting.py by harness/props/C11.py).
-   Only statements here; the proofs are in PlaceholderProofs.v / PlaceholderRound.v. *)
+   Model: XV.Placeholder (tied to xmldiff/formatting.py by harness/props/C11.py on every run).
+   Only statements here; the proofs are in Placeholder{Proofs,Round,Undo,Final}.v.
+
+   Vocabulary (all defined in those files, nothing assumed):
+     ph_inv s      = inverse_tables s /\ injective_on_keys s /\ counter_ok s
+     ph_wf tt fmt s = ph_inv s /\ good tt fmt s /\ p2t s <> []       (good: a T_SINGLE entry holds its key element,
+                     intact or as do_tree leaves it; a T_OPEN entry holds a childless element with the tag and
+                     attributes of its key).  Every maker driven through do_tree / mark_diff / wrap_diff (and
+                     get_placeholder, unless it files a T_OPEN entry for an element with children) is ph_wf:
+                     C11_wf_reachable.  Plain ph_inv is NOT enough for the round trip: C11_roundtrip_ph_inv_only_refuted.
+     no_pua T      = no text/tail character of T lies in (U+E000, U+F8FF]
+     room tt fmt s T = after do_tree on T the counter is still <= U+F8FF  (C11_room_sufficient: ctr s + 2|T| <= U+F8FF is enough)
+     tree_equiv    = equality up to absent vs empty text
+     key_norm      = keys compared as lxml serialises the element
+   Fuel: undo_element recurses through the table, so the model carries fuel and answers Err EFuel when it runs
+   out.  C11_roundtrip holds for EVERY fuel above the size of the document (i.e. the unbounded recursion of the
+   Python code terminates with that answer); results do not depend on fuel (undo_element_mono);
+   C11_roundtrip_default_fuel covers undo_tree with the fuel the correspondence check executes. *)
 From Coq Require Import List NArith Bool.
 Import ListNotations.
-Require Import XV.Placeholder XV.PlaceholderProofs.
+Require Import XV.Placeholder XV.PlaceholderProofs XV.PlaceholderRound XV.PlaceholderUndo XV.PlaceholderFinal.
 Local Open Scope N_scope.
 
 (* Every history of get_placeholder / mark_diff / wrap_diff / do_tree calls on a
@@ -21,8 +37,7 @@ Theorem C11_same_key_same_ph : forall s k s' c,
 Proof. exact same_key_same_ph_thm. Qed.
 Print Assumptions C11_same_key_same_ph.
 
-(* keys are (element, role, close_ph), elements compared as lxml serialises
-   them ([key_norm]): different elements or different roles never share a placeholder *)
+(* keys are (element, role, close_ph): different elements or different roles never share a placeholder *)
 Theorem C11_distinct : forall s k1 k2 c1 c2,
   ph_inv s -> key_norm k1 <> key_norm k2 ->
   placeholder_of s k1 = Some c1 -> placeholder_of s k2 = Some c2 -> c1 <> c2.
@@ -37,3 +52,49 @@ Theorem C11_same_in_two_docs : forall tt fmt s k s1 c ops,
   let s2 := fold_left (ph_step tt fmt) ops s1 in get_placeholder s2 k = (s2, c).
 Proof. exact same_in_two_docs_key. Qed.
 Print Assumptions C11_same_in_two_docs.
+
+(* the same, for whole inline content: the children [ks] of a text element are
+   replaced by the very same string whenever they are met again (in any later
+   document, anything processed in between), so unchanged inline content
+   compares as equal text *)
+Theorem C11_same_in_two_docs_text : forall tt fmt s ks s1 txt mk ops,
+  ph_inv s -> flat_kids fmt s ks = (s1, txt, mk) ->
+  let s2 := fold_left (ph_step tt fmt) ops s1 in
+  exists mk', flat_kids fmt s2 ks = (s2, txt, mk').
+Proof. exact same_text_thm. Qed.
+Print Assumptions C11_same_in_two_docs_text.
+
+(* the states in the scope of the round trip *)
+Theorem C11_wf_reachable : forall tt fmt ops,
+  Forall safe_op ops -> ph_wf tt fmt (fold_left (ph_step tt fmt) ops ph_init).
+Proof. exact wf_reachable. Qed.
+Print Assumptions C11_wf_reachable.
+
+Theorem C11_room_sufficient : forall tt fmt s T,
+  ctr s + 2 * N.of_nat (xsize T) <= PUA_END -> room tt fmt s T.
+Proof. exact room_sufficient. Qed.
+Print Assumptions C11_room_sufficient.
+
+(* Round trip: any document, any text / formatting tag subsets, any prior history. *)
+Theorem C11_roundtrip : forall tt fmt s T s' T1,
+  ph_wf tt fmt s -> no_pua T -> room tt fmt s T -> do_tree tt fmt s T = (s', T1) ->
+  forall fuel, (xsize T < fuel)%nat ->
+    exists T2, undo_tree_fuel fuel s' T1 = Ok T2 /\ tree_equiv T2 T.
+Proof. exact roundtrip_fuel. Qed.
+Print Assumptions C11_roundtrip.
+
+(* undo_tree as executed by the correspondence check (default fuel) never returns anything else *)
+Theorem C11_roundtrip_default_fuel : forall tt fmt s T s' T1 T2,
+  ph_wf tt fmt s -> no_pua T -> room tt fmt s T -> do_tree tt fmt s T = (s', T1) ->
+  undo_tree s' T1 = Ok T2 -> tree_equiv T2 T.
+Proof. exact roundtrip_default_fuel. Qed.
+Print Assumptions C11_roundtrip_default_fuel.
+
+(* With only the table invariants as hypothesis the round trip is false: a
+   T_OPEN entry filed through get_placeholder for <b><i/></b> makes
+   <p><b><i/></b></p> come back as <p><b><i/><i/></b></p> (replayed on the code). *)
+Theorem C11_roundtrip_ph_inv_only_refuted :
+  exists tt fmt s T, ph_inv s /\ no_pua T /\ room tt fmt s T /\
+    exists T2, undo_tree (fst (do_tree tt fmt s T)) (snd (do_tree tt fmt s T)) = Ok T2 /\ ~ tree_equiv T2 T.
+Proof. exact roundtrip_ph_inv_only_refuted. Qed.
+Print Assumptions C11_roundtrip_ph_inv_only_refuted.
